@@ -199,7 +199,7 @@ def commits_into_dropped_tables(ctx, prog):
                  'error exit, before the manifest append. [A replay that drops such objects would serve too and would need this rule '
                  'to be extended.]')
     CC = SEC + 'version_manager::VersionManager::commit_changes_with_custom_manifest::{closure#0}'
-    b = prog.body(CC)
+    b = prog.inlined(CC)
     if not ctx.anchor(R6, CC, b is not None):
         return
     ctx.functions_analysed.add(b.name)
@@ -309,7 +309,7 @@ def commits_into_dropped_tables(ctx, prog):
         # the snapshot the commit publishes: the value inserted into `status`
         published = set()
         for c in b.calls:
-            if re.search(r'HashMap::<.*>::insert$', c.name or '') and c.args and c.args[0]['k'] != 'const' and \
+            if re.search(r'(Hash|BTree)Map::<.*>::insert$', c.name or '') and c.args and c.args[0]['k'] != 'const' and \
                     INNER + 'status' in inner_fields(c.args[0]['pl']['l']):
                 for a in c.args[1:]:
                     if a['k'] != 'const':
